@@ -355,6 +355,34 @@ impl Prop for C09 {
                                 }
                                 ctx.count("reach.immediate_line_at_break_stepped");
                             }
+                            if boundary % 4 == 1 {
+                                // a direct-mode jump typed at the breakpoint (GOTO / GOSUB <first line>) is one statement:
+                                // the call performs the jump and hands control back *before* anything on the
+                                // destination line has run — nothing traced, nothing printed, location = start of that line
+                                if let Some(l) = s.list_quiet_first() {
+                                    let word = if boundary % 8 == 1 { "GOTO" } else { "GOSUB" };
+                                    let text = format!("{word} {l}");
+                                    let call = s.apply(&Op::Line(text.clone()))?;
+                                    ctx.calls(2);
+                                    if let Some(p) = call.panicked() {
+                                        return v("panic", format!("panic@{p}"), format!("`{text}` typed at a breakpoint unwound: {p}"));
+                                    }
+                                    let executed = call.recs.iter().filter(|r| matches!(r, Rec::Print(_) | Rec::Trace(_) | Rec::Break(_) | Rec::Extra | Rec::Reenter)).count();
+                                    let loc = s.probe(false).location;
+                                    if call.err().is_none() && (executed > 0 || s.state() != St::Running || (loc.0, loc.1) != (Some(l), 0)) {
+                                        return v(
+                                            "more-than-one-statement",
+                                            format!("direct-mode {word}: ran past the jump"),
+                                            format!("`{text}` typed at a breakpoint produced {:?} and left state {:?} at line {:?} token {}: the call must perform the jump only (line {l}, token 0, nothing executed)", call.recs, s.state(), loc.0, loc.1),
+                                        );
+                                    }
+                                    if call.err().is_some() {
+                                        break;
+                                    }
+                                    ctx.count("reach.direct_jump_at_break_stepped");
+                                    continue;
+                                }
+                            }
                             Op::Line("CONT".into())
                         } else if st == St::Awaiting {
                             Op::Reply(replies.next().map(|r| r.text.clone()).unwrap_or_else(|| "0".into()))
